@@ -234,3 +234,14 @@ Definition run_flood (o : list value) : option bool :=
       end
   | _ => None
   end.
+
+(* floods with the per-newcomer record: last element of outs = [exst replies probes decisions] *)
+Definition run_flood_adm (o : list value) : option bool :=
+  match o, run_flood o with
+  | [_; _; _; _; VL exs; _; _; _; _; VL base; VL [_; _; _; VL adm]], Some b =>
+      match parse_pairs exs, parse_pairs base, parse_pairs adm with
+      | Some exs, Some base, Some adm => Some (b && C07_flood_decisions_ok base exs adm)
+      | _, _, _ => None
+      end
+  | _, _ => None
+  end.
